@@ -10,7 +10,7 @@ meta = {
     "property": name.split("-")[0],
     "breaks": breaks,
     "needs_to_manifest": needs,
-    "author": "independent sub-agent (third round) given only the property text, the one-line descriptions of the four earlier changes (to avoid repeats) and a scratch worktree",
+    "author": "independent sub-agent (" + os.environ.get("ROUND", "third round") + ") given only the property text, the one-line descriptions of the earlier changes (to avoid repeats) and a scratch worktree",
     "base_commit": head,
     "demonstration": [f for f in sorted(os.listdir(d)) if f.endswith(".rs")],
     "confirmed": "tools/confirm_seeded.sh in a scratch worktree (see run.txt): existing suite with the patch 415 passed; demonstration fails with the patch and passes without it",
